@@ -240,12 +240,14 @@ def per_program(p):
 def plan(tier, seed):
     n = 120 if tier == "quick" else 2500
     depth = 4 if tier == "quick" else 6
-    return [{"seed": seed * 1000 + k, "n": n, "depth": depth} for k in range(16)]
+    return [{"seed": seed * 1000 + k, "n": n, "depth": depth, "adversarial": k % 4 == 3} for k in range(16)]
 
 
 def run_shard(shard, col):
+    adv = shard.get("adversarial", False)
     progs.drive_programs(col, seed=shard["seed"], n=shard["n"],
-                         spec_strategy=U.root_specs(max_depth=shard["depth"], mods=2), per_program=per_program)
+                         spec_strategy=U.root_specs(max_depth=shard["depth"], mods=3 if adv else 2, adversarial=adv),
+                         per_program=per_program)
 
 
 def replay(clause, case, col):
